@@ -104,7 +104,7 @@ def run_case(case, ctx):
         tr = {"src": case["src"], "has_empty": has_empty}
         mediamon.set_form("c16")
         for i, tgt in enumerate(case["chain"]):
-            if tgt in ("dsk", "cas") and len(expected) == 1 and len(expected[0]["data"]) > 0 and i == len(case["chain"]) - 1 and not case["select"] and case["id"].endswith(("1", "4", "7")):
+            if tgt in ("dsk", "cas") and len(expected) == 1 and len(expected[0]["data"]) > 0 and i == len(case["chain"]) - 1 and not case["select"]:
                 # one invocation with a container target AND --to_bin: the binary must still be the file's data byte for byte
                 out = "combo.%s" % tgt
                 argv = [cur, "--to_" + tgt, out, "--to_bin", "combo.bin"]
